@@ -56,16 +56,16 @@ def gen_case(rng: random.Random, tier: str) -> dict:
     for _ in range(rng.randint(3, 8)):
         r = rng.random()
         if r < 0.25:
-            ops.append({"op": "sync", "g": rng.randrange(2), "runner": rng.randrange(2), "x": rng.randint(0, 2)})
+            ops.append({"op": "sync", "g": rng.randrange(2), "runner": rng.randrange(2), "x": rng.randint(0, 2), "kw": rng.random() < 0.4})
         elif r < 0.45:
-            ops.append({"op": "async", "g": rng.randrange(2), "runner": rng.randrange(2), "x": rng.randint(0, 2), "k": rng.choice([None, 1, 2]), "cfg": gen.gen_async_cfg(rng)})
+            ops.append({"op": "async", "g": rng.randrange(2), "runner": rng.randrange(2), "x": rng.randint(0, 2), "k": rng.choice([None, 1, 2]), "cfg": gen.gen_async_cfg(rng), "kw": rng.random() < 0.4})
         elif r < 0.85:
             n = rng.randint(2, 4)
             same_x = rng.random() < 0.6
             x0 = rng.randint(0, 2)
             ops.append({
                 "op": "batch",
-                "runs": [{"g": rng.randrange(2), "runner": rng.randrange(3), "x": x0 if same_x else rng.randint(0, 2), "k": rng.choice([None, 1, 2, 3])} for _ in range(n)],
+                "runs": [{"g": rng.randrange(2), "runner": rng.randrange(3), "x": x0 if same_x else rng.randint(0, 2), "k": rng.choice([None, 1, 2, 3]), "kw": rng.random() < 0.3} for _ in range(n)],
                 "cfg": gen.gen_async_cfg(rng),
             })
         else:
@@ -96,6 +96,14 @@ class _Pool:
 
 def _inputs(x: int) -> dict:
     return {"x": x, "y": [x, x + 1]}  # a mutable value in the caller's mapping
+
+
+def _split(inp: dict, kw: bool) -> tuple[dict, dict]:
+    """Some calls pass part of the inputs as keyword arguments next to the values mapping."""
+    if not kw:
+        return inp, {}
+    y = inp.pop("y")
+    return inp, {"y": y}
 
 
 def _alone(doc: dict, gi: int, x: int, flav: str, *, map_xs=None) -> list:
@@ -144,24 +152,24 @@ def run_case(doc: dict) -> dict:
         for oi, op in enumerate(doc["ops"]):
             tag = f"op{oi}[{op['op']}]"
             if op["op"] == "sync":
-                inp = _inputs(op["x"])
+                inp, kwi = _split(_inputs(op["x"]), op.get("kw"))
                 keep = dict(inp)
                 r = pool.sync_runners[op["runner"]]
                 g = pool.graphs[(op["g"], "sync")]
                 rt.schedule = {}
-                out = call_sync(rt, lambda: r.run(g, inp), call_id=f"op{oi}")
+                out = call_sync(rt, lambda: r.run(g, inp, **kwi), call_id=f"op{oi}")
                 res["runs"] += 1
                 mutating_runs += 1
                 _compare(tag, _summ(out), ref(op["g"], op["x"], "sync"), viol)
                 _caller_dict(tag, inp, keep, viol)
             elif op["op"] == "async":
-                inp = _inputs(op["x"])
+                inp, kwi = _split(_inputs(op["x"]), op.get("kw"))
                 keep = dict(inp)
                 r = pool.async_runners[op["runner"]]
                 g = pool.graphs[(op["g"], "async")]
                 rt.schedule = op["cfg"]["schedule"]
                 rt.decisions = []
-                kw = {"max_concurrency": op["k"]} if op["k"] else {}
+                kw = dict({"max_concurrency": op["k"]} if op["k"] else {}, **kwi)
                 out = call_async(rt, [lambda: r.run(g, inp, **kw)], shuffle_seed=op["cfg"].get("shuffle"), call_ids=[f"op{oi}"], limits=[op["k"]])[0]
                 res["runs"] += 1
                 mutating_runs += 1
@@ -170,7 +178,9 @@ def run_case(doc: dict) -> dict:
                 _compare(tag, _summ(out), ref(op["g"], op["x"], "async"), viol)
                 _caller_dict(tag, inp, keep, viol)
             elif op["op"] == "batch":
-                inps = [_inputs(r_["x"]) for r_ in op["runs"]]
+                split = [_split(_inputs(r_["x"]), r_.get("kw")) for r_ in op["runs"]]
+                inps = [a_ for a_, _b in split]
+                kwis = [b_ for _a, b_ in split]
                 keeps = [dict(i) for i in inps]
                 rt.schedule = op["cfg"]["schedule"]
                 rt.decisions = []
@@ -178,7 +188,7 @@ def run_case(doc: dict) -> dict:
                 for j, r_ in enumerate(op["runs"]):
                     runner = pool.async_runners[r_["runner"]]
                     g = pool.graphs[(r_["g"], "async")]
-                    kw = {"max_concurrency": r_["k"]} if r_["k"] else {}
+                    kw = dict({"max_concurrency": r_["k"]} if r_["k"] else {}, **kwis[j])
                     facs.append(lambda runner=runner, g=g, i=inps[j], kw=kw: runner.run(g, i, **kw))
                 h0 = len(rt.history)
                 outs = call_async(rt, facs, shuffle_seed=op["cfg"].get("shuffle"), call_ids=[f"op{oi}c{j}" for j in range(len(facs))], limits=[r_["k"] for r_ in op["runs"]])
@@ -258,7 +268,7 @@ def _compare(tag: str, got: list, exp: list, viol: list) -> None:
 def _caller_dict(tag: str, inp: dict, keep: dict, viol: list) -> None:
     if set(inp) != set(keep) or any(inp[k] is not keep[k] for k in keep):
         viol.append((f"{tag}:caller_input_mapping_modified", {"keys_now": sorted(inp), "keys_before": sorted(keep)}))
-    elif any(canon(inp[k]) != canon(_inputs(inp["x"])[k]) for k in ("y",) if isinstance(inp.get("x"), int)):
+    elif any(canon(inp[k]) != canon(_inputs(inp["x"])[k]) for k in ("y",) if isinstance(inp.get("x"), int) and k in inp):
         viol.append((f"{tag}:caller_input_value_mutated", {"now": inp}))
 
 
